@@ -437,6 +437,11 @@ func (ev *Evaluator) load(a Val, pos token.Pos) (Val, error) {
 				}
 			}
 		}
+		// an array-typed table indexed through its address (&table[i]): the element of the table's value, spelled as for
+		// a slice-typed table (*table[i])
+		if g, ok := p.Base.(Sym); ok && strings.HasPrefix(g.Name, "&") {
+			return Elem{Base: Sym{Name: "*" + g.Name[1:]}, Index: p.Index}, nil
+		}
 		return Elem{Base: p.Base, Index: p.Index}, nil
 	case Ptr:
 		if p.Cell == nil {
@@ -754,6 +759,19 @@ func (ev *Evaluator) instr(env map[ssa.Value]Val, in ssa.Value) (Val, error) {
 			hi, ok2 := bound(in.High, int64(len(sv.Elems)))
 			if ok1 && ok2 && 0 <= lo && lo <= hi && hi <= int64(len(sv.Elems)) {
 				return &SliceV{Elems: sv.Elems[lo:hi]}, nil
+			}
+		}
+		// subject[loc[2k]:loc[2k+1]] with loc the offset vector of a match on the same subject: capture k of the
+		// sub-slice form (that the group took part in the match is the index obligation of the slice)
+		if in.Low != nil && in.High != nil && in.Max == nil {
+			lo, err1 := ev.val(env, in.Low)
+			hi, err2 := ev.val(env, in.High)
+			if err1 == nil && err2 == nil {
+				o1, ok1 := offsetOf(lo)
+				o2, ok2 := offsetOf(hi)
+				if ok1 && ok2 && !o1.End && o2.End && o1.Cap.String() == o2.Cap.String() && (o1.Subj == nil || sameSubject(o1.Subj, x)) {
+					return o1.Cap, nil
+				}
 			}
 		}
 		// keep the bounds in the operator name: slice[lo:hi](x)
@@ -1096,6 +1114,11 @@ func (ev *Evaluator) binop(op token.Token, x, y Val, pos token.Pos) (Val, error)
 				}
 			}
 		}
+		// FindSubmatchIndex answers nil exactly when FindSubmatch does: the "no match" tests of the offset form are the
+		// tests of the sub-slice form
+		if nx, changed := idxAsSubmatch(x); changed {
+			return ev.binop(op, nx, y, pos)
+		}
 		// a length shifted by a constant, tested for equality: len(x)+c == k ⇔ len(x) == k−c (a length is non-negative
 		// and below 2^63, so the wrapped sum equals k only there)
 		if (op == token.EQL || op == token.NEQ) && oky && cy.V != nil && cy.V.Kind() == constant.Int {
@@ -1201,6 +1224,14 @@ func (ev *Evaluator) binop(op token.Token, x, y Val, pos token.Pos) (Val, error)
 		}
 		return Const{constant.MakeBool(cmpHolds(op, ord))}, nil
 	}
+	if op == token.SUB {
+		// end − start of one capture: its length
+		if o1, ok1 := offsetOf(x); ok1 {
+			if o2, ok2 := offsetOf(y); ok2 && o1.End && !o2.End && o1.Cap.String() == o2.Cap.String() {
+				return Term{Fn: "len", Args: []Val{o1.Cap}}, nil
+			}
+		}
+	}
 	if r, ok := rangeArith(op, x, y); ok {
 		return r, nil
 	}
@@ -1222,6 +1253,81 @@ func (ev *Evaluator) binop(op token.Token, x, y Val, pos token.Pos) (Val, error)
 	}
 	// symbolic arithmetic: keep as term
 	return Term{Fn: op.String(), Args: []Val{x, y}}, nil
+}
+
+// sameSubject: a and b denote the same text (a conversion between string and []byte of one value included).
+func sameSubject(a, b Val) bool {
+	strip := func(v Val) string {
+		for i := 0; i < 4; i++ {
+			t, ok := v.(Term)
+			if !ok || len(t.Args) != 1 || !(strings.HasPrefix(t.Fn, "conv[") || t.Fn == "slice" || t.Fn == "string" || t.Fn == "[]byte") {
+				break
+			}
+			v = t.Args[0]
+		}
+		return v.String()
+	}
+	return strip(a) == strip(b)
+}
+
+// idxAsSubmatch: the result of (*Regexp).FindSubmatchIndex / FindStringSubmatchIndex, or its len, rewritten as the
+// result (the len) of FindSubmatch / FindStringSubmatch on the same operands.
+func idxAsSubmatch(v Val) (Val, bool) {
+	t, ok := v.(Term)
+	if !ok {
+		return v, false
+	}
+	if t.Fn == "len" && len(t.Args) == 1 {
+		if inner, changed := idxAsSubmatch(t.Args[0]); changed {
+			return Term{Fn: "len", Args: []Val{inner}}, true
+		}
+		return v, false
+	}
+	switch t.Fn {
+	case "(*regexp.Regexp).FindSubmatchIndex":
+		return Term{Fn: "(*regexp.Regexp).FindSubmatch", Args: t.Args}, true
+	case "(*regexp.Regexp).FindStringSubmatchIndex":
+		return Term{Fn: "(*regexp.Regexp).FindStringSubmatch", Args: t.Args}, true
+	}
+	return v, false
+}
+
+// Offset is the start or end offset of a capture within the subject of a match (an element of the vector
+// FindSubmatchIndex returns). Subj, when set, is the subject the offsets refer to.
+type Offset struct {
+	Cap  Val
+	End  bool
+	Subj Val
+}
+
+func (o Offset) String() string {
+	if o.End {
+		return "end(" + o.Cap.String() + ")"
+	}
+	return "start(" + o.Cap.String() + ")"
+}
+
+// offsetOf: v is an offset: an Offset value (a rule's summary of FindSubmatchIndex), or element j of the offset
+// vector of an uninterpreted FindSubmatchIndex — offset j belongs to capture j/2 of the sub-slice form, odd j its end.
+func offsetOf(v Val) (Offset, bool) {
+	if o, ok := v.(Offset); ok {
+		return o, true
+	}
+	el, ok := v.(Elem)
+	if !ok {
+		return Offset{}, false
+	}
+	c, ok := el.Index.(Const)
+	if !ok || c.V == nil || c.V.Kind() != constant.Int {
+		return Offset{}, false
+	}
+	sub, changed := idxAsSubmatch(el.Base)
+	j, exact := constant.Int64Val(c.V)
+	st, isT := sub.(Term)
+	if !changed || !exact || j < 0 || !isT || len(st.Args) != 2 {
+		return Offset{}, false
+	}
+	return Offset{Cap: Elem{Base: sub, Index: Const{constant.MakeInt64(j / 2)}}, End: j%2 == 1, Subj: st.Args[1]}, true
 }
 
 // Unordered is the answer an oracle gives for a pair of floating-point operands one of which is NaN: == and every
